@@ -131,6 +131,49 @@ def rule_order_adaptors(ctx):
         ctx.report("order:positive-control", "rules/positive/order.rs", f"the positive control yields {got} sites instead of 5", {})
 
 
+CUT_METHODS = {"map_while", "take_while", "skip_while", "step_by", "take", "skip", "fuse"}
+# truncating adaptors that are part of the documented behaviour (one reason each)
+CUT_ALLOWED = {}
+
+
+def _cut_sites(files):
+    out = []
+    for rel, f in sorted(files.items()):
+        for fn in A.functions(f):
+            if fn.block is None:
+                continue
+            for mc, _ in A.find(fn.block, "Expr::MethodCall"):
+                if mc["method"]["sym"] in CUT_METHODS:
+                    out.append((f, fn, mc))
+    return out
+
+
+def rule_truncating_adaptors(ctx):
+    """CUT: the derives look at *every* field, variant, placeholder, attribute and listed type: no iterator pipeline in impl/src stops at, or starts after, an element chosen by its content or position (`map_while`, `take_while`, `skip_while`, `take`, `skip`, `step_by`; closed set, expected empty). A `filter_map` rewritten as `filter(..).map_while(..)` silently drops every element after the first non-matching one: `{:p} -> {target:p}` no longer dereferences `target`, predicates of later fields are not generated, later variants get no arm."""
+    files = {rel: f for rel, f in ctx.files.items() if rel.startswith("impl/src/")}
+    n = 0
+    for f, fn, mc in _cut_sites(files):
+        n += 1
+        key = (f.rel, fn.qual, mc["method"]["sym"])
+        ctx.instance(f"cut:{f.rel}::{fn.qual}:{mc['method']['sym']}")
+        if key in CUT_ALLOWED:
+            continue
+        ctx.report(
+            f"cut:{f.rel}::{fn.qual}:.{mc['method']['sym']}()",
+            ctx.where(f, mc["method"]),
+            f"`{fn.qual}` applies `.{mc['method']['sym']}(..)` to `{A.render(mc['receiver'])[:100]}`: the elements before / after the cut are not processed at all (a later placeholder, field, variant or attribute argument is silently ignored)",
+            {},
+        )
+    fns = sum(len(A.functions(f)) for f in files.values())
+    ctx.cur.instances += fns
+    ctx.note(f"{fns} functions scanned, {n} truncating adaptors")
+    pc = A.load_files([os.path.join(POS, "cut.rs")])
+    ctx.instance("cut:positive-control")
+    got = len(_cut_sites(pc))
+    if got != 4:
+        ctx.report("cut:positive-control", "rules/positive/cut.rs", f"the positive control yields {got} sites instead of 4", {})
+
+
 def _field_corr(files):
     n = 0
     out = []
